@@ -369,13 +369,15 @@ _TIMEOUT_PLACES = ('instr-sys', 'instr-run-sym', 'file-stdout-from', 'act-sys', 
 def timeout_cells(tier):
     from props import c19_timeouts as t
     cells = [c for c in t.all_cells()
-             if c.get('ctx') and c['place'] in _TIMEOUT_PLACES]
+             if (c.get('ctx') or c['history'] in ('h7_zero', 'h8_slow_cleanup_after_failure', 'h2_earlier_phase'))
+             and c['place'] in _TIMEOUT_PLACES]
     if tier != 'quick':
         return cells
     seed = int(os.environ.get('VERIF_SEED', '1') or '1')
     return [c for i, c in enumerate(cells)
             if (i * 2654435761 + seed * 40503) % 8 == 0 or (c['phase'] == 'act' and c['history'] == 'h1_same_phase'
-                                                             and c['place'] == 'act-sym')]
+                                                             and c['place'] == 'act-sym')
+            or (c['history'] in ('h7_zero', 'h8_slow_cleanup_after_failure') and c['place'] in ('act-sys', 'instr-sys'))]
 
 
 def check_timeout(cell) -> Verdict:
